@@ -255,7 +255,25 @@ func (b *BinaryExpression) isPlainInfix() bool {
 	case "IS NULL", "IS NOT NULL", "NOT":
 		return false
 	}
+	if _, ok := b.matchAgainst(); ok {
+		return false
+	}
 	return true
+}
+
+// matchAgainst returns the AGAINST(...) part of a MySQL full-text search
+// MATCH(cols) AGAINST (expr [mode]), which the parser represents as a binary
+// expression whose right operand is a function call named AGAINST holding the
+// search expression and, when present, the mode words as a string.
+func (b *BinaryExpression) matchAgainst() (*FunctionCall, bool) {
+	if b.CustomOp != nil || !strings.EqualFold(b.Operator, "AGAINST") {
+		return nil, false
+	}
+	f, ok := b.Right.(*FunctionCall)
+	if !ok || f == nil || !strings.EqualFold(f.Name, "AGAINST") || len(f.Arguments) == 0 || len(f.Arguments) > 2 {
+		return nil, false
+	}
+	return f, true
 }
 
 // leftOperandMin is the binding strength required of b's left operand.
@@ -279,6 +297,20 @@ func (b *BinaryExpression) sqlOneLevel() string {
 	// NOT EXISTS (...) is represented as {Left: Exists, Operator: "NOT", Not: true}
 	if upperOp == "NOT" && b.Right == nil {
 		return "NOT " + operandSQL(b.Left, precNot)
+	}
+
+	// MATCH(cols) AGAINST (expr [mode]): the operator word is printed once and
+	// the mode words go back inside the parentheses, unquoted
+	if against, ok := b.matchAgainst(); ok {
+		text := operandSQL(b.Left, precPrimary) + " AGAINST (" + exprSQL(against.Arguments[0])
+		if len(against.Arguments) == 2 {
+			if mode, isLit := against.Arguments[1].(*LiteralValue); isLit && mode != nil {
+				text += " " + fmt.Sprintf("%v", mode.Value)
+			} else {
+				text += " " + exprSQL(against.Arguments[1])
+			}
+		}
+		return text + ")"
 	}
 
 	prec := binaryOperatorPrecedence(upperOp)
